@@ -15,12 +15,23 @@ use explore::{Ctx, Fnv};
 use std::time::Instant;
 
 const P: &str = "C17";
-pub const N_VARIANTS: usize = 7;
+pub const N_VARIANTS: usize = 8;
 
 fn base_file() -> Vec<u8> {
+    base_file_with(false)
+}
+
+/// `twins`: both point clouds carry the same GUID (nothing forbids it) but differ in prototype,
+/// pose and limits, so anything remembered per GUID shows
+fn base_file_with(twins: bool) -> Vec<u8> {
     let mut a = cloud(cat::xyz(cat::F32), 200, 1); // spans three pages
     a.cap = Some(64);
-    let b = cloud(cat::prototypes()[3].1.clone(), 10, 2);
+    let mut b = cloud(cat::prototypes()[3].1.clone(), 10, 2);
+    if twins {
+        a.meta.guid = Some("twin".into());
+        b.meta.guid = Some("twin".into());
+        a.meta.pose = Some(e57spec::model::Pose { rot: [0.5, 0.5, 0.5, 0.5], trans: [10.0, 20.0, 30.0] });
+    }
     let p = Program {
         guid: "g".into(),
         ops: vec![Op::Cloud(a), Op::Image(image(4, true, 100, 3)), Op::Cloud(b), Op::Image(image(1, false, 1500, 4))],
@@ -40,8 +51,11 @@ fn reseal_all(b: &mut [u8]) {
 
 /// 0 intact; 1 payload bit flipped inside cloud 0; 2 inside an image blob; 3 cloud 0 section id
 /// destroyed (page resealed); 4 second packet header of cloud 0 destroyed (resealed); 5 checksum
-/// byte of a cloud page flipped; 6 illegal invalid-state value inside the second cloud (resealed)
+/// byte of a cloud page flipped; 6 illegal invalid-state value inside the second cloud (resealed); 7 intact, both clouds with the same GUID but different prototype and pose
 pub fn variant(k: usize) -> Vec<u8> {
+    if k == 7 {
+        return base_file_with(true);
+    }
     let mut b = base_file();
     let rep = e57spec::decode::validate(&b, &Default::default());
     let cv = rep.sections.iter().find(|s| s.kind == "cv").expect("cloud section");
